@@ -23,6 +23,12 @@ func newPacketAccumulator(pid uint16, programMap *programMap) *packetAccumulator
 func (b *packetAccumulator) add(p *Packet) (ps []*Packet) {
 	mps := b.q
 
+	// Throw away packet if it's the same as the previous one
+	// This must come first: a duplicate repeats the continuity counter, which would otherwise be seen as a discontinuity
+	if isSameAsPrevious(mps, p) {
+		return
+	}
+
 	// Empty buffer if we detect a discontinuity
 	if hasDiscontinuity(mps, p) {
 		// Reset current slice or make new
@@ -31,11 +37,6 @@ func (b *packetAccumulator) add(p *Packet) (ps []*Packet) {
 		} else {
 			mps = make([]*Packet, 0, 10)
 		}
-	}
-
-	// Throw away packet if it's the same as the previous one
-	if isSameAsPrevious(mps, p) {
-		return
 	}
 
 	// Flush buffer if new payload starts here
